@@ -1905,6 +1905,10 @@ def _reflect(root):
                 x = x.func
             elif isinstance(x, (classmethod, staticmethod)):
                 x = x.__func__
+            elif hasattr(x, "__wrapped__") and callable(getattr(x, "__wrapped__", None)):
+                # a functools.wraps decorator (e.g. ``deprecated(fn, old, new)``, which warns and delegates): the two
+                # spellings are paired on the function they both delegate to (assumption: wrappers forward arguments)
+                x = x.__wrapped__
             else:
                 break
         return x, pre
